@@ -175,6 +175,8 @@ pub(crate) mod scopeshape {
         Restore { scope: u8, token: u8 },
         Cond { scope: u8 },
         Body { scope: u8, dest: u8 },
+        Global { new: u8, format: u8 },
+        Parsed { scope: u8, dest: u8 },
     }
     pub struct Log {
         ev: core::cell::Cell<[Option<Ev>; 12]>,
@@ -199,31 +201,91 @@ pub(crate) mod scopeshape {
         }
     }
 
+    fn fresh_log() -> &'static Log {
+        Box::leak(Box::new(Log {
+            ev: core::cell::Cell::new([None; 12]),
+            n: core::cell::Cell::new(0),
+            next: core::cell::Cell::new(1),
+        }))
+    }
+    /// Output format stand-in: a number, and (when it was read from a scope)
+    /// that scope's log; `Default` is format 0 from nowhere.
+    #[derive(Default)]
+    pub struct Fmt(pub u8, pub Option<&'static Log>);
+    /// Error stand-in with the constructor the extracted text uses.
+    pub enum Error {
+        S(String),
+        Other,
+    }
+    impl From<()> for Error {
+        fn from(_: ()) -> Error {
+            Error::Other
+        }
+    }
+    /// `with` configuration value / source file stand-ins.
+    pub struct Val(pub u8);
+    impl Val {
+        pub fn do_evaluate(&self, _scope: ScopeRef, _arithmetic: bool) -> Result<u8, Error> {
+            Ok(self.0)
+        }
+    }
+    pub struct Src;
+    impl Src {
+        pub fn parse(&self) -> Result<u8, Error> {
+            Ok(0)
+        }
+    }
+    fn handle_parsed(_parsed: u8, dest: &mut Dest, module: ScopeRef, _file_context: ()) -> Result<(), Error> {
+        module.log.log(Ev::Parsed { scope: module.id, dest: dest.0 });
+        Ok(())
+    }
+
     #[derive(Clone)]
     pub struct ScopeRef {
         pub id: u8,
+        pub format: u8,
         pub log: &'static Log,
     }
     impl ScopeRef {
         pub fn outer() -> ScopeRef {
-            let log = Box::leak(Box::new(Log {
-                ev: core::cell::Cell::new([None; 12]),
-                n: core::cell::Cell::new(0),
-                next: core::cell::Cell::new(1),
-            }));
-            ScopeRef { id: 0, log }
+            ScopeRef { id: 0, format: 7, log: fresh_log() }
         }
         fn fresh(parent: &ScopeRef, selectors: bool) -> ScopeRef {
             let new = parent.log.next.get();
             parent.log.next.set(new + 1);
             parent.log.log(Ev::Sub { new, parent: parent.id, selectors });
-            ScopeRef { id: new, log: parent.log }
+            ScopeRef { id: new, format: parent.format, log: parent.log }
         }
         pub fn sub(parent: ScopeRef) -> ScopeRef {
             Self::fresh(&parent, false)
         }
         pub fn sub_selectors<T>(parent: ScopeRef, _selectors: T) -> ScopeRef {
             Self::fresh(&parent, true)
+        }
+        pub fn get_format(&self) -> Fmt {
+            Fmt(self.format, Some(self.log))
+        }
+        /// a new module scope: no parent, the given format
+        pub fn new_global(format: Fmt) -> ScopeRef {
+            let log = format.1.unwrap_or_else(fresh_log);
+            let new = log.next.get();
+            log.next.set(new + 1);
+            log.log(Ev::Global { new, format: format.0 });
+            ScopeRef { id: new, format: format.0, log }
+        }
+        /// the value this scope itself was given by `define`
+        pub fn get_or_none(&self, name: &u8) -> Option<u8> {
+            let mut i = 0;
+            let mut found = None;
+            while i < 12 {
+                if let Some(Ev::Define { scope, name: n, value }) = self.log.ev(i) {
+                    if scope == self.id && n == *name {
+                        found = Some(value);
+                    }
+                }
+                i += 1;
+            }
+            found
         }
         pub fn define(&self, name: u8, value: u8) -> Result<(), ()> {
             self.log.log(Ev::Define { scope: self.id, name, value });
@@ -304,6 +366,18 @@ pub(crate) mod scopeshape {
 //@range file=rsass/src/output/transform.rs fn=handle_item from="let mut atrule = dest.start_atrule(name.clone(), args);" until="\n            } else {"
 //@  header: pub fn snippet_atrule_scope(name: String, args: u8, body: &u8, dest: &mut Dest, scope: ScopeRef, file_context: ()) -> Result<(), ()>
 //@  tail: Ok(())
+//@end
+
+//@range file=rsass/src/output/transform.rs fn=handle_item from="|dest| {" nth=1 balanced=1
+//@  header: pub fn snippet_use_module(with: &[(u8, Val, bool)], sourcefile: &Src, scope: ScopeRef, file_context: ()) -> Result<ScopeRef, Error>
+//@  head: let mut dest0 = Dest(5); let f =
+//@  tail: ; f(&mut dest0)
+//@end
+
+//@range file=rsass/src/output/transform.rs fn=handle_item from="|dest| {" nth=2 balanced=1
+//@  header: pub fn snippet_forward_module(with: &[(u8, Val, bool)], sourcefile: &Src, scope: ScopeRef, file_context: ()) -> Result<ScopeRef, Error>
+//@  head: let mut dest0 = Dest(5); let f =
+//@  tail: ; f(&mut dest0)
 //@end
 
 //@range file=rsass/src/output/transform.rs fn=handle_item after="Item::For(name, range, body) => {" until="\n        }"
@@ -407,6 +481,39 @@ fn c16_each_saves_and_restores_its_variables() {
     assert!(outer.log.ev(3) == Some(Ev::DefineMulti { scope: 0, value: b }));
     assert!(outer.log.ev(4) == Some(Ev::Body { scope: 0, dest: 5 }));
     assert!(outer.log.ev(5) == Some(Ev::Restore { scope: 0, token: 77 }), "@each restores what it saved, after the last iteration");
+}
+
+/// C36 (and C16): a module loaded by `@use` / `@forward` is evaluated in a
+/// new global scope that has the output FORMAT of the scope that loads it
+/// (so its comments are kept or dropped by the same style), its `with`
+/// configuration is defined in that new scope, and the module's items are
+/// processed in it.
+fn module_case(forward: bool) {
+    let outer = MockScope::outer();
+    let with = [(3u8, scopeshape::Val(30), false)];
+    let r = if forward {
+        scopeshape::snippet_forward_module(&with, &scopeshape::Src, outer.clone(), ())
+    } else {
+        scopeshape::snippet_use_module(&with, &scopeshape::Src, outer.clone(), ())
+    };
+    match r {
+        Ok(module) => assert!(module.id == 1 && module.format == 7, "the loaded module's scope is the new one, with the loader's format"),
+        Err(_) => assert!(false, "loading succeeds"),
+    }
+    assert!(outer.log.logged() == 3);
+    assert!(outer.log.ev(0) == Some(Ev::Global { new: 1, format: 7 }), "a loaded module gets a new global scope with the output format of the loading scope");
+    assert!(outer.log.ev(1) == Some(Ev::Define { scope: 1, name: 3, value: 30 }), "configuration goes into the module's scope");
+    assert!(outer.log.ev(2) == Some(Ev::Parsed { scope: 1, dest: 5 }), "the module's items are processed in the new scope");
+}
+#[kani::proof]
+#[kani::unwind(14)]
+fn c36_used_module_keeps_output_format() {
+    module_case(false);
+}
+#[kani::proof]
+#[kani::unwind(14)]
+fn c36_forwarded_module_keeps_output_format() {
+    module_case(true);
 }
 
 #[kani::proof]
